@@ -14,6 +14,12 @@
 // members of a block's invalid_transactions.  Signature validation is a
 // phase-1 check: the specification's verdict does not read the flag.
 //
+// Cases with a non-empty dup list the named vkey witness / bootstrap witness /
+// required signer that many times (the witness "sets" and the required
+// signers are lists on the wire; the same bytes are written again, next to the
+// first listing or at the end of the list).  The specification's verdict is a
+// function of the sets.
+//
 // UtxoValidationRules list: the entries named UtxoValidateSignatures,
 // UtxoValidateRequiredVKeyWitnesses and UtxoValidateCollateralVKeyWitnesses
 // are run one by one on the decoded transaction; accepted = none of them
@@ -112,6 +118,75 @@ func (w *bwit) UnmarshalJSON(b []byte) error {
 	return nil
 }
 
+// dups: the elements of a case that are listed more than once
+type dups struct {
+	VW  [][]any `json:"vw"`  // [key, sigValid, times]
+	BW  [][]any `json:"bw"`  // [key, variant, sigValid, times]
+	Req [][]int `json:"req"` // [key, times]
+}
+
+func num(x any) int { f, _ := x.(float64); return int(f) }
+
+func (r *row) timesVW(w vwit) int {
+	for _, d := range r.Dup.VW {
+		if len(d) == 3 && num(d[0]) == w.K && d[1] == any(w.Ok) {
+			return num(d[2])
+		}
+	}
+	return 1
+}
+
+func (r *row) timesBW(w bwit) int {
+	for _, d := range r.Dup.BW {
+		if len(d) == 4 && num(d[0]) == w.K && num(d[1]) == w.V && d[2] == any(w.Ok) {
+			return num(d[3])
+		}
+	}
+	return 1
+}
+
+func (r *row) timesReq(k int) int {
+	for _, d := range r.Dup.Req {
+		if len(d) == 2 && d[0] == k {
+			return d[1]
+		}
+	}
+	return 1
+}
+
+func (r *row) hasDup() bool { return len(r.Dup.VW)+len(r.Dup.BW)+len(r.Dup.Req) > 0 }
+
+// checkDup: every dup entry names a listed element and a count >= 2
+func (r *row) checkDup() error {
+	n := 0
+	for _, w := range r.VW {
+		if t := r.timesVW(w); t > 1 {
+			n++
+		}
+	}
+	for _, w := range r.BW {
+		if t := r.timesBW(w); t > 1 {
+			n++
+		}
+	}
+	for _, k := range r.Req {
+		if t := r.timesReq(k); t > 1 {
+			n++
+		}
+	}
+	if n != len(r.Dup.VW)+len(r.Dup.BW)+len(r.Dup.Req) {
+		return fmt.Errorf("dup of case %s names an element that is not listed, or a count below 2", r.caseKey())
+	}
+	return nil
+}
+
+func star(n int) string {
+	if n > 1 {
+		return fmt.Sprintf("*%d", n)
+	}
+	return ""
+}
+
 type row struct {
 	Ins    []lock   `json:"ins"`
 	Coll   []lock   `json:"coll"`
@@ -120,6 +195,7 @@ type row struct {
 	BW     []bwit   `json:"bw"`
 	Ord    []lock   `json:"ord"` // non-empty: the inputs in the order the ledger sees them
 	P2     bool     `json:"p2"`  // flagged is_valid = false (eras of FlagEras only)
+	Dup    dups     `json:"dup"` // elements listed more than once
 	Accept bool     `json:"accept"`
 	Silent bool     `json:"silent"`
 	Why    []string `json:"why"`
@@ -186,13 +262,13 @@ func (r *row) caseKey() string {
 		coll = append(coll, lockName(l))
 	}
 	for _, k := range r.Req {
-		req = append(req, fmt.Sprint(k))
+		req = append(req, fmt.Sprint(k)+star(r.timesReq(k)))
 	}
 	for _, w := range r.VW {
-		vw = append(vw, fmt.Sprintf("%d%s", w.K, okc(w.Ok)))
+		vw = append(vw, fmt.Sprintf("%d%s", w.K, okc(w.Ok))+star(r.timesVW(w)))
 	}
 	for _, w := range r.BW {
-		bw = append(bw, fmt.Sprintf("%d.%d%s", w.K, w.V, okc(w.Ok)))
+		bw = append(bw, fmt.Sprintf("%d.%d%s", w.K, w.V, okc(w.Ok))+star(r.timesBW(w)))
 	}
 	j := func(x []string) string {
 		if len(x) == 0 {
@@ -560,9 +636,23 @@ func build(e *eraEnv, u *universe, r *row, seed int64) (*built, error) {
 		txid, ix := utxoRef("coll", l, 0)
 		coll = append(coll, cArr(cBytes(txid), cUint(ix)))
 	}
-	for _, k := range r.Req {
-		req = append(req, cBytes(u.keys[k].hash))
+	// an element listed n times: the same bytes again, right after the first
+	// listing or at the end of the list
+	var reqLate, vkLate, bwLate [][]byte
+	again := func(list, late *[][]byte, item []byte, times, salt int) {
+		for t := 1; t < times; t++ {
+			if mix(seed, ck, salt+t)%2 == 0 {
+				*list = append(*list, item)
+			} else {
+				*late = append(*late, item)
+			}
+		}
 	}
+	for i, k := range r.Req {
+		req = append(req, cBytes(u.keys[k].hash))
+		again(&req, &reqLate, cBytes(u.keys[k].hash), r.timesReq(k), 600+10*i)
+	}
+	req = append(req, reqLate...)
 	payTo := append([]byte{0x60 | networkID}, u.keys[1].hash...)
 	body := []kv{
 		{0, set(ins...)},
@@ -585,8 +675,11 @@ func build(e *eraEnv, u *universe, r *row, seed int64) (*built, error) {
 		if !w.Ok {
 			b.bad = append(b.bad, fmt.Sprintf("vkey%d:%s", w.K, kind))
 		}
-		vk = append(vk, cArr(cBytes(u.keys[w.K].pub), cBytes(u.signature(w.K, bh[:], w.Ok, kind, bit))))
+		item := cArr(cBytes(u.keys[w.K].pub), cBytes(u.signature(w.K, bh[:], w.Ok, kind, bit)))
+		vk = append(vk, item)
+		again(&vk, &vkLate, item, r.timesVW(w), 700+10*i)
 	}
+	vk = append(vk, vkLate...)
 	for i, w := range r.BW {
 		kind := badKinds[mix(seed, ck, 200+i)%3]
 		bit := mix(seed, ck, 300+i) % 512
@@ -594,9 +687,12 @@ func build(e *eraEnv, u *universe, r *row, seed int64) (*built, error) {
 			b.bad = append(b.bad, fmt.Sprintf("boot%d.%d:%s", w.K, w.V, kind))
 		}
 		id := u.boot[[2]int{w.K, w.V}]
-		bw = append(bw, cArr(cBytes(u.keys[w.K].pub), cBytes(u.signature(w.K, bh[:], w.Ok, kind, bit)),
-			cBytes(id.cc), cBytes(id.attrs)))
+		item := cArr(cBytes(u.keys[w.K].pub), cBytes(u.signature(w.K, bh[:], w.Ok, kind, bit)),
+			cBytes(id.cc), cBytes(id.attrs))
+		bw = append(bw, item)
+		again(&bw, &bwLate, item, r.timesBW(w), 800+10*i)
 	}
+	bw = append(bw, bwLate...)
 	// witness order is not part of the case: rotate it
 	if n := len(vk); n > 1 {
 		s := mix(seed, ck, 400) % n
@@ -712,6 +808,9 @@ func main() {
 	}
 	for i := range rows {
 		rows[i].normalise()
+		if err := rows[i].checkDup(); err != nil {
+			rep.Dead("%v", err)
+		}
 	}
 	for _, e := range envs {
 		if flagEras[e.name] && e.flag == "" {
@@ -802,6 +901,7 @@ func main() {
 	}
 	acceptedPerEra, rejectedPerEra := map[string]int{}, map[string]int{}
 	flaggedAccepted, flaggedRejected := map[string]int{}, map[string]int{}
+	dupRefused, dupAccepted, dupRejected := map[string]int{}, map[string]int{}, map[string]int{}
 	skipped, unflaggable := 0, 0
 	workers := runtime.NumCPU()
 	if workers > 6 {
@@ -815,6 +915,14 @@ func main() {
 				e, r := j.e, j.r
 				key := "era=" + e.name + ":" + r.caseKey()
 				b, err := build(e, u, r, seed)
+				if err != nil && r.hasDup() && strings.HasPrefix(err.Error(), "decode ") {
+					// a decoder that refuses a set with a repeated element is within
+					// its rights: nothing is accepted
+					mu.Lock()
+					dupRefused[e.name]++
+					mu.Unlock()
+					continue
+				}
 				if err != nil {
 					// every case is a well-formed transaction of the era
 					rep.Dead("%s: %v", key, err)
@@ -822,7 +930,7 @@ func main() {
 				replay := map[string]any{
 					"era": e.name, "case": r.caseKey(), "spec_accept": r.Accept, "spec_why": r.Why,
 					"tx_cbor": hex.EncodeToString(b.txBytes), "invalid_signatures": b.bad,
-					"p2invalid": r.P2, "tx_is_valid": b.tx.IsValid(),
+					"p2invalid": r.P2, "tx_is_valid": b.tx.IsValid(), "listed_more_than_once": r.Dup,
 					"rules": e.sigNames, "seed": seed,
 				}
 				v, p := judge(e, b.tx)
@@ -835,6 +943,13 @@ func main() {
 				replay["code_accept"] = v.accept
 				replay["code_failures"] = v.fails
 				mu.Lock()
+				if r.hasDup() {
+					if v.accept {
+						dupAccepted[e.name]++
+					} else {
+						dupRejected[e.name]++
+					}
+				}
 				if r.P2 {
 					if v.accept {
 						flaggedAccepted[e.name]++
@@ -868,7 +983,7 @@ func main() {
 						fmt.Sprintf("signature validation of %s rejects a transaction whose owners and required signers are all witnessed by valid signatures: %v",
 							e.name, v.fails), replay)
 				}
-				if j.i%9973 == 17 || (r.P2 && j.i%7919 == 101) {
+				if j.i%9973 == 17 || (r.P2 && j.i%7919 == 101) || (r.hasDup() && j.i%7919 == 202) {
 					rep.Sample(map[string]any{"case": key, "tx_is_valid": b.tx.IsValid(), "spec_accept": r.Accept, "spec_why": r.Why,
 						"code_accept": v.accept, "code_failures": v.fails, "tx": hex.EncodeToString(b.txBytes)})
 				}
@@ -910,6 +1025,9 @@ func main() {
 	rep.Extra["rows_not_applicable_pre_alonzo"] = skipped
 	rep.Extra["flagged_rows_not_applicable_pre_alonzo"] = unflaggable
 	rep.Extra["phase2_flag_realisation"] = flagHow
+	rep.Extra["element_listed_more_than_once_accepted_per_era"] = dupAccepted
+	rep.Extra["element_listed_more_than_once_rejected_per_era"] = dupRejected
+	rep.Extra["element_listed_more_than_once_refused_by_the_decoder_per_era"] = dupRefused
 	rep.Extra["flagged_is_valid_false_accepted_per_era"] = flaggedAccepted
 	rep.Extra["flagged_is_valid_false_rejected_per_era"] = flaggedRejected
 	rep.Extra["property_silent_byron_collateral_with_bootstrap_witness_rejected"] = silentRejected
